@@ -403,7 +403,7 @@ def correspondence_chain(res, info, r):
   cases = []
   universe = info["universe"]
   fake_ctx = object()
-  line_values = [None, 0, 1, 2, 3, 7, 100000]
+  line_values = [None, 0, 1, 7, 2000]
   for key, cls in universe:
     # the clause that will match decides which attribute carries the line
     lines = line_values if any(issubclass(cls, c) and a == "ActCompilerError" for c, _, a, _ in info["clause_objs"]) else [None]
@@ -418,11 +418,17 @@ def correspondence_chain(res, info, r):
   kept = []
   ids = info["ids"]
   logging_off()
+  optcache = {}
+  def options_for(nofail, check):
+    if (nofail, check) not in optcache:
+      optcache[(nofail, check)] = config.Options.create(path, check=check, nofail=nofail, python_version=(3, 12),
+                                                        output=None if check else "-")
+    return optcache[(nofail, check)]
   for key, cls, line, nofail, check in cases:
     exc = make_exception(key, cls, line, None)
     if exc is None:
       continue
-    opts = config.Options.create(path, check=check, nofail=nofail, python_version=(3, 12), output=None if check else "-")
+    opts = options_for(nofail, check)
     enc, what = real_outcome(pio, opts, exc, fake_ctx)
     real.append(enc)
     kept.append((key, line, nofail, check, what))
@@ -430,7 +436,7 @@ def correspondence_chain(res, info, r):
     model_terms.append(f"(Raised {ids[cls]} {lt}, {coq_bool(nofail)}, {coq_bool(check)})")
   for nofail in (False, True):
     for check in (False, True):
-      opts = config.Options.create(path, check=check, nofail=nofail, python_version=(3, 12), output=None if check else "-")
+      opts = options_for(nofail, check)
       enc, what = real_outcome(pio, opts, None, fake_ctx)
       real.append(enc)
       kept.append(("<returned>", None, nofail, check, what))
@@ -514,7 +520,7 @@ def correspondence_lines(res, r, n_cases):
     inside = 1 <= line <= nl and (endline == 0 or line <= endline <= nl)
     res.count(("lines", s, line, endline, col, endcol) if inside and s else None)
   bodies = []
-  chunk = 250
+  chunk = 200
   for k in range(0, len(split_cases), chunk):
     sc = split_cases[k:k + chunk]
     vc = vis_cases[k:k + chunk]
@@ -635,9 +641,14 @@ def judge(src, r):
     cat = "cpython-resource-limit"
   else:
     cat = "analysed"
+    fallback = bool(r.get("has_pyi")) and bool(r.get("pyi_default"))   # the whole-file fallback of the except chain
     for e in cerrs:
       if e[5].startswith(DOCUMENTED_CONSTANT_ERRORS):
         cat = "analysed:constant-error"       # io.py `except constant_folding.ConstantError` (documented)
+      elif not fallback:
+        # reported by the VM while the analysis went on and produced a real stub: a string that pytype evaluates
+        # as an annotation (e.g. type['...']) did not parse.  Part of the error report, not a rejected file.
+        cat = "analysed:string-annotation-compiler-error"
       elif augmented_breaks(seen):
         viol.append(("spurious-compiler-error:augment_annotations",
                      f"CPython compiles the text; pytype's preprocess.augment_annotations rewrites it into invalid syntax and reports python-compiler-error at line {e[1]}: {e[5]}"))
@@ -743,6 +754,22 @@ def build_jobs(res, r, thorough):
       src = c15_gen.read_text(p)
       if src is not None and len(src) < 20000:
         jobs.append(("stdbad:" + os.path.relpath(p, c15_gen.STDLIB), "stdlib-bad-syntax-file", src, {"check": True}))
+  # corpus first, then the kinds interleaved, so that a run cut short by the time budget still covers every kind
+  head = [j for j in jobs if j[1] == "corpus"]
+  groups = collections.OrderedDict()
+  for j in jobs:
+    if j[1] != "corpus":
+      groups.setdefault(j[1], []).append(j)
+  lists = list(groups.values())
+  longest = max([len(l) for l in lists] + [0])
+  tail = []
+  for i in range(longest):
+    for l in lists:
+      # spread the shorter lists evenly over the longest
+      k = i * len(l) // longest
+      if k < len(l) and (i == 0 or k != (i - 1) * len(l) // longest):
+        tail.append(l[k])
+  jobs = head + tail
   res.extra["generator_features"] = dict(sorted(feats.items()))
   res.extra["mutation_kinds"] = dict(sorted(kinds.items()))
   return jobs
@@ -860,7 +887,7 @@ def run(res):
   if info is not None:
     correspondence_chain(res, info, common.rng(res.seed, "c15-chain"))
   timing["chain"] = round(time.time() - t, 1); t = time.time()
-  correspondence_lines(res, common.rng(res.seed, "c15-lines"), 1500 if thorough else 500)
+  correspondence_lines(res, common.rng(res.seed, "c15-lines"), 1500 if thorough else 400)
   timing["lines"] = round(time.time() - t, 1); t = time.time()
   search(res, r, thorough)
   timing["search+minimise"] = round(time.time() - t, 1)
